@@ -17,7 +17,7 @@ CHECKS = {
         note='4 interfaces + 2 class declarations + 1 instance declaration + 1 plain Declaration; base lists <= 2 (thorough 3); cycles excluded. Extra layers: assignments nested inside a change notification (a dependent re-bases another interface), and a search that starts from a pre-built graph with a chain and a redundant edge.', ref='3/C02'),
     'C03': dict(technique=E2 + '; oracles: textbook C3 and CPython type.mro(), cross-checked; plus E1 rebasing histories',
         text='Every ordered-base DAG up to 5 nodes (thorough: 6-node extensions) as real interfaces, class hierarchies with declarations, strict/legacy arguments and environment switches in separate processes, and all rebasing histories up to depth 2/3.',
-        note='Bounded DAG size; trusts CPython MRO and the 20-line C3. Environments: default, strict, legacy, log-changed, track-bad; DAGs of falsy interfaces.', ref='3/C03'),
+        note='Bounded DAG size; trusts CPython MRO and the 20-line C3. Environments: default, strict, legacy, log-changed, track-bad; DAGs of falsy interfaces; the root named explicitly among the bases; re-basing histories also under the strict environment switch. One recorded known finding (strict mode refuses a consistent re-basing in a diamond).', ref='3/C03'),
     'C04': dict(technique=E2 + '; brute-force ranking oracle over the registration list',
         text='Every registry content up to size 2 (thorough 3) over a key universe of arity 0-2 keys, placed in the registry or a base, x every lookup key, both registry flavours; plus every sequence of <= 4 (thorough 5) register/unregister operations over a five-interface provided hierarchy (the extendors lists are order dependent).',
         note='Fixed hierarchy with both orders of multiple inheritance, class and instance declarations as keys; ambiguity between incomparable provided interfaces accepted either way.', ref='3/C04'),
